@@ -22,7 +22,7 @@ from mc.runner import HarnessError, scratch_dir, stable_hash
 ID = "C29"
 LEVEL = "model_checking"
 EXHAUSTIVE = True
-CASE_TIMEOUT = 2400
+CASE_TIMEOUT = 6000
 RULE = ("a configuration = (renaming scheme, multiset of concurrent runs, history of "
         "earlier complete runs); every maximal schedule (sequence of thread ids, one "
         "per file-system operation that rename_and_write issues) of every "
@@ -100,8 +100,8 @@ SPACES = {
         _space(["AA", "AB"], [H0, HA, HB], 1),
         _space(["AC"], [H0], 1),
         _space(["AD"], [H0], 2),
-        _space(["AAA"], [H0], 2),
-        _space(["AAB"], [H0], 2, bound=1),
+        _space(["AAA"], [H0], 3),
+        _space(["AAB"], [H0], 3, bound=1),
         _space(["AA", "AB"], [H0], 2, full=True, budget=60),
         _space(["AA"], [HA], 2, full=True, budget=60),
     ],
@@ -110,7 +110,7 @@ SPACES = {
         _space(["AA", "AB", "AC"], [H0, HA, HB, HAB], 1),
         _space(["AD", "BD"], [H0, HA, HB], 3),
         _space(["DD"], [H0], 4),
-        _space(["AAA", "AAB", "ABB", "ABC"], [H0], 3),
+        _space(["AAA", "AAB", "ABB", "ABC"], [H0], 4),
         _space(["AAA", "ABC"], [HA], 4, budget=3000),
         _space(["AAB"], [HA], 4, bound=3),
         _space(["AAD"], [H0], 3, bound=2),
